@@ -195,7 +195,7 @@ def eval_pair(ctx, net, variant, rng_seed):
     ta, ea = trajectory(a, net["nsteps"], **ka)
     tb, eb = trajectory(b, net["nsteps"], **kb)
     if ea or eb:
-        if "LinAlgError" in (ea or eb):
+        if "LinAlgError" in (ea or eb) or "invalid numeric entries" in (ea or eb):
             # a diverged filter (hostile estimate settings) aborts the run: no pair to compare; not this property's subject
             ctx.count("pairs_skipped_filter_divergence")
             return False
